@@ -452,6 +452,13 @@ def run_schemes(c):
             # boundary values of h, and S replaced by other group elements
             for hh, tag in ((0, "h0"), (N - 1, "hN-1"), (N, "hN"), ((ps[0] + 1) % N, "h+1"), (R256 - 1, "hmax")):
                 fol(key + ":verify:" + tag, dict(base, sig=R.signature_to_der(hh, ps[1])), genuine=False)
+            # the same point S in a non-canonical encoding: a coordinate written as value + p (where that still fits 32 octets) is not below the field prime
+            Sb = R.g1_to_bytes(ps[1]); offS = sig.find(Sb)
+            if offS >= 0 and sig.count(Sb) == 1:
+                for ci, cn in ((0, "x"), (1, "y")):
+                    v = int.from_bytes(Sb[1 + 32 * ci:33 + 32 * ci], "big") + R.p
+                    if v < 2 ** 256:
+                        fol(key + ":verify:S-%s+p" % cn, dict(base, sig=sig[:offS + 1 + 32 * ci] + v.to_bytes(32, "big") + sig[offS + 33 + 32 * ci:]), genuine=False)
             fol(key + ":verify:S-neg", dict(base, sig=R.signature_to_der(ps[0], R.g1_neg(ps[1]))), genuine=False)
             fol(key + ":verify:S-gen", dict(base, sig=R.signature_to_der(ps[0], R.P1)), genuine=False)
             # a signature made by the reference with its own r must be accepted
@@ -486,6 +493,12 @@ def run_schemes(c):
             for bit in bits:
                 x = bytearray(ct); x[bit // 8] ^= 0x80 >> (bit % 8)
                 fol(key + ":decrypt:ctbit%d" % bit, dict(base, ct=bytes(x)), genuine=False, expect=m.hex(), refde=dehex)
+            C1b = R.g1_to_bytes(pc[0]); offC = ct.find(C1b)
+            if offC >= 0 and ct.count(C1b) == 1:         # C1 with a coordinate written as value + p
+                for ci, cn in ((0, "x"), (1, "y")):
+                    v = int.from_bytes(C1b[1 + 32 * ci:33 + 32 * ci], "big") + R.p
+                    if v < 2 ** 256:
+                        fol(key + ":decrypt:C1-%s+p" % cn, dict(base, ct=ct[:offC + 1 + 32 * ci] + v.to_bytes(32, "big") + ct[offC + 33 + 32 * ci:]), genuine=False, expect=m.hex(), refde=dehex)
             # the C3 tag changed in ways that cancel in a byte sum / XOR fold / order-insensitive or shortened comparison (located by its value in the DER)
             c3 = pc[2]
             off3 = ct.find(c3)
